@@ -1,6 +1,10 @@
 (* driver for m_exc:  ref <ctx> <program tokens>   |   sch <fx> <sx> <ctx> <program tokens>
                      lab <late_switch> <fx> <sx> <ctx> <program tokens>   (label-level code, M_ExcLab)
                      sites <program tokens>   (error label of every block marker, emission order)
+                     tmp <keep> <fx> <sx> <ctx> <program tokens>   (temp-level code, M_ExcVars)
+                     evres <keep> <program tokens>   (static resolution of every reader of exception
+                        temps in emission order: b:<id> / w:<id> / b:- ; id = preorder number of the
+                        allocating construct)
    ctx: 0 = nothing handled at entry, 1 = called inside a handler (top item = outer exception),
         2 = called from a generator frame inside a handler (top item empty, outer underneath) *)
 let ni s = nat_of_int (int_of_string s)
@@ -132,6 +136,15 @@ let handle = function
       let (s, rest) = p_stmt toks in if rest <> [] then failwith "trailing" else
       let (h, t, b) = init ctx in
       show (run_lab (bool_of_string late) (bool_of_string fx) (bool_of_string sx) s h t b)
+  | "tmp" :: keep :: fx :: sx :: ctx :: toks ->
+      let (s, rest) = p_stmt toks in if rest <> [] then failwith "trailing" else
+      let (h, t, b) = init ctx in
+      show (run_tmp (bool_of_string keep) (bool_of_string fx) (bool_of_string sx) s h t b)
+  | "evres" :: keep :: toks ->
+      let (s, rest) = p_stmt toks in if rest <> [] then failwith "trailing" else
+      let pe = function None -> "-" | Some n -> string_of_int (int_of_nat n) in
+      String.concat " " (List.map (function RBare ev -> "b:" ^ pe ev | RWith ev -> "w:" ^ pe ev)
+                           (resolve (bool_of_string keep) s))
   | "sites" :: toks ->
       let (s, rest) = p_stmt toks in if rest <> [] then failwith "trailing" else
       sites s
